@@ -138,6 +138,9 @@ func ToWalletAddr(protoAddr *Address) (map[wallet.BackendID]wallet.Address, erro
 		if err := binary.Read(bytes.NewReader(protoAddr.GetAddressMapping()[i].GetKey()), binary.BigEndian, &k); err != nil {
 			return nil, fmt.Errorf("failed to read key: %w", err)
 		}
+		if !wallet.HasBackend(wallet.BackendID(k)) {
+			return nil, fmt.Errorf("unknown backend id %d", k)
+		}
 		addr := wallet.NewAddress(wallet.BackendID(k))
 		if err := addr.UnmarshalBinary(protoAddr.GetAddressMapping()[i].GetAddress()); err != nil {
 			return nil, fmt.Errorf("failed to unmarshal address for key %d: %w", k, err)
@@ -283,6 +286,9 @@ func ToAllocation(protoAlloc *Allocation) (alloc *channel.Allocation, err error)
 	}
 	alloc.Assets = make([]channel.Asset, len(protoAlloc.GetAssets()))
 	for i := range protoAlloc.GetAssets() {
+		if !channel.HasBackend(alloc.Backends[i]) {
+			return nil, errors.Errorf("%d'th asset: unknown backend id %d", i, alloc.Backends[i])
+		}
 		alloc.Assets[i] = channel.NewAsset(alloc.Backends[i])
 		err = alloc.Assets[i].UnmarshalBinary(protoAlloc.GetAssets()[i])
 		if err != nil {
